@@ -213,6 +213,7 @@ func runC13(c *Ctx) {
 	runC13Round4(c)
 	runC13TextMarshal(c)
 	runC13Round5(c)
+	runC13Batch2(c)
 }
 
 // ---------- R3 validation walk ----------
